@@ -36,7 +36,8 @@ def main():
         rc, out = sh(["git", "-C", REPO, "worktree", "add", "-q", "--detach", wt, "HEAD"])
         if rc != 0:
             print(out); return 2
-        env = dict(os.environ, PYTHONPATH=wt, PYTHONDONTWRITEBYTECODE="1", TORCHTT_REPO=wt, TT_CPP_CACHE=os.path.join(wt, "_cppcache"))
+        env = dict(os.environ, PYTHONPATH=wt, PYTHONDONTWRITEBYTECODE="1", TORCHTT_REPO=wt, TT_CPP_CACHE=os.path.join(wt, "_cppcache"),
+                   OMP_NUM_THREADS=os.environ.get("SEEDTEST_THREADS", "2"), MKL_NUM_THREADS=os.environ.get("SEEDTEST_THREADS", "2"))
         rc, out = sh([PY, os.path.join(seed, "demo.py")], cwd=wt, env=env, timeout=900)
         ev["demo_clean"] = "PASS" if rc == 0 else "FAIL(rc=%d)" % rc
         rc, out = sh(["git", "-C", wt, "apply", patch])
@@ -46,7 +47,7 @@ def main():
         rc, out = sh([PY, os.path.join(seed, "demo.py")], cwd=wt, env=env, timeout=900)
         ev["demo_patched"] = "PASS" if rc == 0 else "FAIL(rc=%d)" % rc
         if suite:
-            rc, out = sh([PY, "-m", "pytest", "-q", "-p", "no:cacheprovider", "--timeout=900", "tests"], cwd=wt, env=env, timeout=3000)
+            rc, out = sh([PY, "-m", "pytest", "-q", "-p", "no:cacheprovider", "--timeout=900", "tests"], cwd=wt, env=env, timeout=1500)
             tail = [l for l in out.split("\n") if "passed" in l or "failed" in l]
             ev["suite_patched"] = tail[-1].strip() if tail else "rc=%d" % rc
     finally:
@@ -65,7 +66,7 @@ def main():
         def one(c):
             t0 = time.time()
             rc, out = sh([PY, os.path.join(VERIF, "harness", "check.py"), c, "--tier", "quick"], cwd=VERIF, timeout=3000,
-                         env=dict(os.environ, VERIF_EVIDENCE_DIR="/tmp/ttverif_seed_evidence"))
+                         env=dict(os.environ, VERIF_EVIDENCE_DIR="/tmp/ttverif_seed_evidence", OMP_NUM_THREADS="2", MKL_NUM_THREADS="2"))
             lines = [l for l in out.split("\n") if l.startswith("VIOLATION") or l.startswith("KNOWN-FINDING") or l.startswith("TIMEOUT") or "INFRASTRUCTURE" in l]
             return c, rc, lines, round(time.time() - t0, 1)
 
